@@ -227,6 +227,7 @@ print(json.dumps(out))
             with warnings.catch_warnings():
                 warnings.simplefilter('ignore')
                 with contextlib.redirect_stdout(io.StringIO()):
+                    a_now = sv.compile(p, ns, fl, custom=cu)      # the object the cache holds NOW (the sampled one may have been evicted)
                     b = sv.compile(p, ns2, fl, custom=cu)
                     b2 = sv.compile(p, ct.Namespaces(ns2), fl, custom=cu)
             ck.count(('reorder',))
@@ -234,7 +235,7 @@ print(json.dumps(out))
                 ck.violation('the same namespaces in another order (or as a Namespaces object) give an unequal object or another hash',
                              {'pattern': p, 'namespaces': repr(ns), 'reordered': repr(ns2),
                               'equal': a == b, 'hash_equal': hash(a) == hash(b)})
-            if b is not a:
+            if b is not a_now or b2 is not a_now:
                 ck.violation('the same key in another map ordering missed the cache', {'pattern': p, 'namespaces': repr(ns)})
         # the caller's maps are copied
         if ns is not None and isinstance(ns, dict) and cu is not None:
